@@ -50,6 +50,8 @@ type c20Meta struct {
 	Cycle    bool                `json:"cross_file_cycle"`
 	// CrossPkgCombo / CrossPkgAnyOf: an allOf/anyOf (resp. anyOf) branch $ref crosses packages
 	CrossPkgCombo bool `json:"crosspackage_combinator_ref"`
+	// RefsTo: file-level reference graph (tag -> tags it refers to)
+	RefsTo map[string][]string `json:"refs_to,omitempty"`
 	// RespelledOutput: two ids are mapped to one output file under different spellings (out/x.go, ./out/x.go)
 	RespelledOutput bool `json:"respelled_output,omitempty"`
 	// RefCompositions: number of allOf/anyOf nodes with a $ref branch in the world's documents (two or more: a
@@ -126,6 +128,10 @@ func buildC20Meta(w *World) c20Meta {
 			if r.LocalOnly {
 				continue
 			}
+			if m.RefsTo == nil {
+				m.RefsTo = map[string][]string{}
+			}
+			m.RefsTo[f.Tag] = appendUniq(m.RefsTo[f.Tag], r.ToTag)
 			if tf := w.File(r.ToTag); r.Combo != "" && tf != nil && tf.Pkg != f.Pkg {
 				m.CrossPkgCombo = true
 				if r.Combo == "anyOf" {
@@ -568,6 +574,33 @@ func (p c20) Eval(c *Case, outs []*Out) []Discrepancy {
 		for path, g := range run.files {
 			if g.Err == nil && len(g.Dups) > 0 {
 				add("U", "duplicate-decl", fmt.Sprintf("output %q declares %v more than once", path, g.Dups))
+			}
+		}
+		// ---- R: no output without declarations (a file written for a mapping whose schema took no part in the run:
+		// a stray stub today, a clobbered file tomorrow)
+		reached := map[string]bool{}
+		var visit func(tg string)
+		visit = func(tg string) {
+			if reached[tg] {
+				return
+			}
+			reached[tg] = true
+			for _, o := range meta.RefsTo[tg] {
+				visit(o)
+			}
+		}
+		for _, tg := range tags {
+			visit(tg)
+		}
+		mappedHere := map[string]bool{}
+		for _, f := range meta.Files {
+			if reached[f.Tag] {
+				mappedHere[f.OutAbs] = true
+			}
+		}
+		for path, g := range run.files {
+			if g.Err == nil && len(g.Decls) == 0 && path != "-" && !mappedHere[path] && meta.RefsTo != nil {
+				add("R", "output-of-a-schema-that-took-no-part", fmt.Sprintf("output %q was written (package %s, no declarations) although no schema given to or referenced in this run maps to it", path, g.Pkg))
 			}
 		}
 		// ---- R routing by markers
